@@ -3,6 +3,7 @@ From Coq Require Import Bool ZArith List.
 From K Require Import Lib.Bits Lib.Types Model.Machine Model.Exec Spec.ISA
   Proofs.DecodeProofs Proofs.DecodeProofs78 Proofs.DecodeProofsBitC Proofs.DecodeProofsBitD Proofs.DecodeProofsBitEF.
 Import ListNotations.
+From K Require Import Proofs.TwoByte.
 Open Scope Z_scope.
 
 (* [agree t w0 w1 i]: handler family t, run on the opcode words, executes instruction i - same family, same
@@ -82,7 +83,13 @@ Example c07_example :
   decode_ref 0x0f03 0 0 0 0 = Some (IUnimplemented, 2) /\ select1 0x0f03 = TUnimpl.
 Proof. repeat split; vm_compute; reflexivity. Qed.
 
+(* a two-byte instruction is recognised from its first word alone: the following words do not matter *)
+Theorem two_byte_decode_ignores_later_words :
+  forall w0 w1 w2 w3 w4 i, decode_ref w0 w1 w2 w3 w4 = Some (i, 2) -> decode_ref w0 0 0 0 0 = Some (i, 2).
+Proof. exact two_byte_independent. Qed.
+
 Print Assumptions first_word_dispatch.
 Print Assumptions unimplemented_rejected.
 Print Assumptions second_word_dispatch_01.
 Print Assumptions second_word_dispatch_78_7x.
+Print Assumptions two_byte_decode_ignores_later_words.
